@@ -316,6 +316,57 @@ def check_cases(cases, res, stream):
                 res.failures.append((key, case, '; '.join(bad[:3])))
 
 
+URLS = ['https://example.org/r', 'https://x/<br>\ny', 'u"><script>alert(1)</script>',
+        "u' onclick='x", 'a&b=c&amp;d', 'x<br>\n<br>\n<br>\n<br>\ny', '', '</a></span></td>', 'u\tv w']
+
+
+class A(html.parser.HTMLParser):
+    def __init__(self):
+        super().__init__(convert_charrefs=True)
+        self.hrefs = []
+
+    def handle_starttag(self, tag, attrs):
+        if tag == 'a':
+            self.hrefs.append(dict(attrs))
+
+
+def link_stream(rng, res, n):
+    """--link: the URL of the rule becomes the value of an href attribute;
+    whatever it holds, the report keeps its rows, shows the source faithfully,
+    and the link carries exactly the URL"""
+    for _ in range(n):
+        c = make_case(rng)
+        if not c['matches']:
+            continue
+        for m in c['matches']:
+            m['rule']['urls'] = [{'value': rng.choice(URLS)}]
+        init_genhtml(c['context'], link=True)
+        case = {'tex': c['tex'], 'cm': c['cm'], 'matches': c['matches'],
+                'context': c['context'], 'file': c['file'], 'link': True}
+        key = 'c16-link:%r' % ((c['tex'], json.dumps(c['matches']), c['context']),)
+        try:
+            out = genhtml.generate_html(c['tex'], c['cm'],
+                                        json.loads(json.dumps(c['matches'])), c['file'])[2]
+        except Fatal:
+            res.count('link', key, nontrivial=False)
+            continue
+        except Exception as e:
+            res.count('link', key, nontrivial=True)
+            res.failures.append((key, case, 'exception %s with --link' % type(e).__name__))
+            continue
+        res.count('link', key, nontrivial=True)
+        bad = oracle(c, out)
+        a = A(); a.feed(out)
+        urls = set(m['rule']['urls'][0]['value'] for m in c['matches'])
+        for at in a.hrefs:
+            if 'target' not in at and not any(k.startswith('on') for k in at):
+                continue        # anchors of the report itself
+            if set(at) - {'href', 'target'} or at.get('href') not in urls:
+                bad.append('link tag with attributes %r, the rule URLs are %r' % (at, sorted(urls)))
+        if bad:
+            res.failures.append((key, case, '; '.join(bad[:3])))
+
+
 def shell_sample(rng, res, n):
     """whole pipeline: real shell, --output html, hostile source"""
     def one(i):
@@ -361,6 +412,7 @@ def run(tier, seed, build, res):
     cases += core.load_corpus('C16')
     for i in range(0, len(cases), 5000):
         check_cases(cases[i:i + 5000], res, 'random')
+    link_stream(rng, res, 200 if tier == 'quick' else 3000)
     shell_sample(rng, res, 4 if tier == 'quick' else 16)
 
 
